@@ -63,6 +63,8 @@ type builder struct {
 	d     *SDef
 	out   *built
 	feats map[string]schema.FeatureSet
+	// noNil: empty lists are always empty non-nil slices (what coercion of `[]` yields)
+	noNil bool
 }
 
 func (b *builder) featureSet(fs []string) schema.FeatureSet {
@@ -141,6 +143,9 @@ func (b *builder) goValue(v Val, t TRef, top bool) interface{} {
 	case "enum":
 		return b.enumGoValue(t.N, v.S)
 	case "list":
+		if v.NilList && len(v.L) == 0 && !b.noNil {
+			return []interface{}(nil)
+		}
 		out := make([]interface{}, len(v.L))
 		inner := t
 		if strings.HasPrefix(t.W, "L") {
